@@ -254,8 +254,8 @@ var argKindKeywords = map[string][]string{
 
 // token alphabets per argument kind: every sequence of up to three (thorough: four) tokens is tried
 var argAlphabets = map[string][]string{
-	"range":   {"1", "0", "5", ".", "..", "-", "|", " ", "min", "max", "+", "e"},
-	"length":  {"1", "0", "5", ".", "..", "-", "|", " ", "min", "max", "+"},
+	"range":   {"1", "0", "5", ".", "..", "-", "|", " ", "min", "max", "+", "e", "\t", "\f"},
+	"length":  {"1", "0", "5", ".", "..", "-", "|", " ", "min", "max", "+", "\u00a0"},
 	"date":    {"2020", "-", "01", "12", "13", "00", "31", "32", "1", "a", " "},
 	"uint":    {"0", "1", "9", "-", "+", " ", ".", "x"},
 	"int":     {"0", "1", "9", "-", "+", " ", ".", "x"},
@@ -263,8 +263,8 @@ var argAlphabets = map[string][]string{
 	"fracdig": {"0", "1", "8", "9", "-", "+", " ", "."},
 	"id":      {"a", "1", "-", ".", "_", ":", "xml", "X", "é", " "},
 	"idref":   {"a", "1", "-", ".", ":", "p", "xml", " "},
-	"key":     {"a", "b", " ", ":", "p", "1", "/", "\t"},
-	"unique":  {"a", "b", " ", ":", "p", "1", "/"},
+	"key":     {"a", "b", " ", ":", "p", "1", "/", "\t", "\f", "\v", "\u00a0", "\u0085"},
+	"unique":  {"a", "b", " ", ":", "p", "1", "/", "\t", "\f", "\u00a0"},
 	"absschema": {"a", "/", ":", "p", "1", " "},
 	"descschema": {"a", "/", ":", "p", "1", " "},
 	"augment": {"a", "/", ":", "p", "1", " "},
